@@ -83,7 +83,8 @@ PROPS = {
     "C08": {
         "groups": [{"name": "cbor", "tags": "verif", "run": "^VH_C08_", "flags": {"harness-timeout": 280},
                     "quick": {"params": "strlen=2,members=2"},
-                    "thorough": {"params": "strlen=3,members=3", "harness-timeout": 3000, "max-paths": 5000000}}],
+                    "thorough": {"params": "strlen=3,members=3", "harness-timeout": 3000, "max-paths": 5000000}},
+                   {"name": "wiring", "tags": "verif,binary_log", "run": "^VH_C01_marshal_func$", "flags": {"gen": True}}],
         "cross_solver": {"run": "^VH_C08_(ints|floats|simple|time)$"},
         "callsite_audit": "harness/c08_callsites.txt",
         "level": "model_checking",
